@@ -192,6 +192,11 @@ func onResourceRuleUpdate(res string, rule *Rule) (err error) {
 		logging.Warn("[Outlier onResourceRuleUpdate] Ignoring invalid outlier ejection rule", "rule", rule, "err", err.Error())
 		return
 	}
+	if res != rule.Resource {
+		err = fmt.Errorf("unmatched resource name expect: %s, actual: %s", res, rule.Resource)
+		logging.Warn("[Outlier onResourceRuleUpdate] Ignoring outlier ejection rule of another resource", "rule", rule, "err", err.Error())
+		return
+	}
 	if err = circuitbreaker.IsValidRule(circuitRule); err != nil {
 		logging.Warn("[Outlier onRuleUpdate] Ignoring invalid rule when loading new rules", "rule", rule, "err", err.Error())
 		return
